@@ -666,17 +666,41 @@ pub fn weak_zip_checks(prop: &str, sc: &Scenario, rr: &RunResult) -> Vec<Violati
     visit(&sc.steps, &[], false, &mut |p, _a, _b| zips.push(p.to_vec()));
     for path in zips {
         let Some(qm) = rr.meta.iter().find(|m| m.path == path && m.pos == "out") else { continue };
+        let (Some(lm), Some(rm)) = (
+            rr.meta.iter().find(|m| m.path == path && m.pos == "preL"),
+            rr.meta.iter().find(|m| m.path == path && m.pos == "preR"),
+        ) else {
+            continue;
+        };
         let iters = probe_iterations(&rr.rec, qm.id);
+        let lin = probe_iterations(&rr.rec, lm.id);
+        let rin = probe_iterations(&rr.rec, rm.id);
+        // a side input is recorded once (outside the loop) and presented in every round
+        let input_of = |v: &Vec<Vec<(u64, u16, i64, i64)>>, i: usize| -> BTreeMap<u64, usize> {
+            let it = if v.len() <= 1 && iters.len() > 1 { v.first() } else { v.get(i) };
+            let mut m = BTreeMap::new();
+            for x in it.into_iter().flatten() {
+                *m.entry(x.0).or_insert(0usize) += 1;
+            }
+            m
+        };
         for (i, it) in iters.iter().enumerate() {
-            let mut left = BTreeSet::new();
-            let mut right = BTreeSet::new();
+            let (la, ra) = (input_of(&lin, i), input_of(&rin, i));
+            let mut lu: BTreeMap<u64, usize> = BTreeMap::new();
+            let mut ru: BTreeMap<u64, usize> = BTreeMap::new();
             for (id, _k, v, _) in it {
-                if !left.insert(*id) {
-                    out.push(viol(prop, "zip-element-used-twice", format!("zip at step {:?} iteration {}: left element {:x} appears in two pairs", path, i, id)));
+                *lu.entry(*id).or_default() += 1;
+                *ru.entry(*v as u64).or_default() += 1;
+            }
+            for (id, n) in &lu {
+                if *n > la.get(id).copied().unwrap_or(0) {
+                    out.push(viol(prop, "zip-element-used-twice", format!("zip at step {:?} iteration {}: left element {:x} appears in {} pairs but only {} times in the input", path, i, id, n, la.get(id).copied().unwrap_or(0))));
                     return out;
                 }
-                if !right.insert(*v) {
-                    out.push(viol(prop, "zip-element-used-twice", format!("zip at step {:?} iteration {}: right element {:x} appears in two pairs", path, i, v)));
+            }
+            for (id, n) in &ru {
+                if *n > ra.get(id).copied().unwrap_or(0) {
+                    out.push(viol(prop, "zip-element-used-twice", format!("zip at step {:?} iteration {}: right element {:x} appears in {} pairs but only {} times in the input", path, i, id, n, ra.get(id).copied().unwrap_or(0))));
                     return out;
                 }
             }
